@@ -142,7 +142,10 @@ class FakeSocket:
             raise _err(errno.EAGAIN)
         s = self.backlog.pop(0)
         self._log("accept", s.id)
-        return s, s.peername
+        po = getattr(s.peer, "owner", None) if s.peer is not None else None
+        if s.owner is None and isinstance(po, str) and po[:1] == "c" and po[1:].isdigit():
+            s.owner = "s" + po[1:]       # server side of client c<i>: tagged at accept time, so that policies which single
+        return s, s.peername             # out one connection also see the calls made inside the accepting service pass
 
     # -- client side -------------------------------------------------------
     def connect_ex(self, ha):
